@@ -919,6 +919,12 @@ func (r *vpRunner) run(h *vpHistory) (obs vpObs) {
 }
 
 func vpRunHistory(h *vpHistory, settle time.Duration) vpObs {
+	for _, op := range h.Ops {
+		// payloads of thousands of events take longer to build than the usual quiescence interval
+		if op.Op == "bulk" && settle < 40*time.Millisecond {
+			settle = 40 * time.Millisecond
+		}
+	}
 	client := &vpClient{act: make(chan struct{}, 1)}
 	p := NewProcessor(ProcessorConfig{Client: client, AppTimeout: 10 * time.Minute})
 	p.trackProgress = make(chan struct{})
